@@ -637,8 +637,12 @@ func runLifecycleScenario(sc *lcScenario, emitEv func(M)) {
 				am := &AMsg{Id: i + 1, T: "aud", Ha: 1}
 				msgs = []base.RtmpMsg{probeHdr(i + 1), BuildMsg(am, 64, uint32((i+1)*10))}
 			}
+			skind := ""
+			if s != nil {
+				skind = s.kind
+			}
 			for _, msg := range msgs {
-				switch s.kind {
+				switch skind {
 				case "custPub":
 					if err := s.cust.FeedRtmpMsg(msg); err != nil {
 						ret = "rejected"
